@@ -60,11 +60,11 @@ func (o *OracleC23) AfterTxn(w *ledger.World, bc *ledger.BlockCtx, out *ledger.O
 			continue
 		}
 		if nw.Reward > old.Reward {
-			o.viol(w, "after", "reward-credited-to-dead-provider/"+fnName(v), fmt.Sprintf("provider reward of dead %s %d -> %d", d.P, old.Reward, nw.Reward))
+			o.viol(w, "after", "reward-credited-to-dead-provider/after-"+d.P.DeadBy+"/"+fnName(v), fmt.Sprintf("provider reward of dead %s %d -> %d", d.P, old.Reward, nw.Reward))
 		}
 		for id, ndp := range nw.Pools {
 			if odp, ok := old.Pools[id]; ok && ndp.Reward > odp.Reward {
-				o.viol(w, "after", "reward-credited-to-dead-provider/"+fnName(v), fmt.Sprintf("delegate reward at dead %s %d -> %d", d.P, odp.Reward, ndp.Reward))
+				o.viol(w, "after", "reward-credited-to-dead-provider/after-"+d.P.DeadBy+"/"+fnName(v), fmt.Sprintf("delegate reward at dead %s %d -> %d", d.P, odp.Reward, ndp.Reward))
 			}
 		}
 		if v.Class == fnPayFees {
@@ -227,7 +227,7 @@ func (o *OracleC23) Checkpoint(r *ledger.Runner, st sim.Step) {
 		}
 		w.Tr.Probe("direct_reward_on_dead_pool:" + pi.P.Kind.String())
 		if pi.Total.Sign() != 0 || panicked != "" {
-			o.viol(w, "after", "reward-credited-to-dead-provider/"+where, fmt.Sprintf("%s (dead by %s): a distribution of %v credited %v %s", pi.P, pi.P.DeadBy, amount, pi.Total, panicked))
+			o.viol(w, "after", "reward-credited-to-dead-provider/after-"+pi.P.DeadBy+"/"+where, fmt.Sprintf("%s (dead by %s): a distribution of %v credited %v %s", pi.P, pi.P.DeadBy, amount, pi.Total, panicked))
 		}
 	})
 }
